@@ -64,6 +64,25 @@ namespace bloch::runtime {
         return v.type == Value::Type::Object && !v.objectValue;
     }
 
+    // A reference stored in a typed slot (variable, parameter, return value) carries the slot's
+    // declared class as its static class. Overloads are resolved from static types, exactly as
+    // the analyser resolved them; the object's dynamic class only matters for virtual dispatch.
+    static void applyStaticClass(Value& v, const RuntimeTypeInfo& declared) {
+        if (declared.kind == Value::Type::Object && v.type == Value::Type::Object &&
+            v.objectValue && !declared.className.empty())
+            v.className = declared.className;
+    }
+
+    static std::unordered_map<std::string, RuntimeTypeInfo> typeSubstitutionOf(
+        const RuntimeClass* cls) {
+        std::unordered_map<std::string, RuntimeTypeInfo> subst;
+        if (cls) {
+            for (size_t i = 0; i < cls->typeParamNames.size() && i < cls->typeArgs.size(); ++i)
+                subst[cls->typeParamNames[i]] = cls->typeArgs[i];
+        }
+        return subst;
+    }
+
     static std::string valueToString(const Value& v) {
         // Pretty-print a runtime value for echo and tracked summaries.
         std::ostringstream oss;
@@ -1519,7 +1538,9 @@ namespace bloch::runtime {
         thisVal.className = cls->name;
         m_env.back()["this"] = {thisVal, false, true};
         for (size_t i = 0; ctor && i < ctor->params.size() && i < args.size(); ++i) {
-            m_env.back()[ctor->params[i]->name] = {args[i], false, true};
+            Value arg = args[i];
+            applyStaticClass(arg, typeInfoFromAst(ctor->params[i]->type.get(), typeSubstitutionOf(cls)));
+            m_env.back()[ctor->params[i]->name] = {arg, false, true};
         }
 
         // Detect an explicit super(...) call as the first statement.
@@ -1661,7 +1682,10 @@ namespace bloch::runtime {
         }
         m_returnValue = {};
         for (size_t i = 0; i < method->decl->params.size() && i < args.size(); ++i) {
-            m_env.back()[method->decl->params[i]->name] = {args[i], false, true};
+            Value arg = args[i];
+            if (i < method->params.size())
+                applyStaticClass(arg, method->params[i]);
+            m_env.back()[method->decl->params[i]->name] = {arg, false, true};
         }
         bool prevReturn = m_hasReturn;
         m_hasReturn = false;
@@ -1673,6 +1697,8 @@ namespace bloch::runtime {
             }
         }
         Value ret = m_returnValue;
+        applyStaticClass(ret, typeInfoFromAst(method->decl->returnType.get(),
+                                              typeSubstitutionOf(method->owner)));
         endFrame();
         m_hasReturn = prevReturn;
         m_currentClassCtx = prevClass;
@@ -1686,7 +1712,9 @@ namespace bloch::runtime {
         // Bind parameters, run the body until a return is hit, then unwind.
         beginFrame();
         for (size_t i = 0; i < fn->params.size() && i < args.size(); ++i) {
-            m_env.back()[fn->params[i]->name] = {args[i], false, true};
+            Value arg = args[i];
+            applyStaticClass(arg, typeInfoFromAst(fn->params[i]->type.get()));
+            m_env.back()[fn->params[i]->name] = {arg, false, true};
         }
         bool prevReturn = m_hasReturn;
         m_returnValue = {};
@@ -1699,6 +1727,7 @@ namespace bloch::runtime {
             }
         }
         Value ret = m_returnValue;
+        applyStaticClass(ret, typeInfoFromAst(fn->returnType.get()));
         endFrame();
         m_hasReturn = prevReturn;
         return ret;
@@ -1943,6 +1972,9 @@ namespace bloch::runtime {
                     v = eval(var->initializer.get());
                     initialized = true;
                 }
+                if (dynamic_cast<NamedType*>(var->varType.get()))
+                    applyStaticClass(v, typeInfoFromAst(var->varType.get(),
+                                                        typeSubstitutionOf(m_currentClassCtx)));
             }
             m_env.back()[var->name] = {v, var->isTracked, initialized};
         } else if (auto block = dynamic_cast<BlockStatement*>(s)) {
